@@ -94,9 +94,20 @@ func validateBasicSyntax(exprStr string) error {
 		return fmt.Errorf("empty expression")
 	}
 
-	// Check for mismatched parentheses
+	// Check for mismatched parentheses (parentheses inside string literals do not count)
 	parenthesesCount := 0
+	var quote rune
 	for _, ch := range trimmed {
+		if quote != 0 {
+			if ch == quote {
+				quote = 0
+			}
+			continue
+		}
+		if ch == '\'' || ch == '"' {
+			quote = ch
+			continue
+		}
 		if ch == '(' {
 			parenthesesCount++
 		} else if ch == ')' {
